@@ -121,16 +121,7 @@ def run(tier, seed):
     #    validated against Trace_FrpsGroups, whose probes compare the manager's used set with the open groups
     if not v.violations:
         import checks.sessions_common as sc
-        tf = d / "groups-tcp.ndjson"
-        p = vlib.run_driver(drv, ["groups", "-seed", seed * 10 + 7, "-n", 4 if tier == "quick" else 30, "-steps", 10, "-kind", "tcp", "-out", tf], timeout=2400,
-                            env_extra=vlib.trace_env("Trace_FrpsGroups"), ok_codes=(0, 2))
-        gstats = {}
-        sc.parse_stats(p.stdout, gstats)
-        ok = sc.validate(v, "Trace_FrpsGroups", (vlib.SPEC / "Trace_FrpsGroups.cfg").read_text(), tf, "groups[tcp]")
-        if p.returncode != 0 and ok:
-            raise vlib.Infra(f"groups driver died (exit {p.returncode}) without a trace-level violation:\n{p.stderr[-1500:]}")
-        for k, val in gstats.items():
-            stats_all["group_" + k] = val
+        sc.tcp_group_histories(v, drv, d, seed, 4 if tier == "quick" else 30, stats_all)
     nontrivial = stats_all.get("gate_hit", 0) + stats_all.get("concurrent", 0) + stats_all.get("squat", 0) + stats_all.get("drop", 0)
     v.add_cov(evaluations=stats_all.get("register", 0) + stats_all.get("close", 0), distinct_nontrivial=nontrivial,
               rule="histories = seeded random register/close/squat/drop/concurrent/gate-scheduled operations by 2-3 scripted clients on a real frps; "
